@@ -15,7 +15,7 @@ from lcmsa.formula import conj, parse
 
 
 def need(x, msg):
-    if x is None or x is False:
+    if x is None or x is False or (isinstance(x, (list, tuple, dict, set, frozenset)) and not x):
         raise AnalysisError(msg)
     return x
 
